@@ -4,7 +4,8 @@
    have no other state in the Go text), so Size()/Payload() are functions of that record and of
    nothing else.  The Go values the correspondence drives are obtained through histories
      build (struct literal) | decode (DecodeXxx, DecodeSEIMessage, avc/hevc.ParseSEINalu)
-       -> steps: edit exported fields | copy the struct | serialise and decode again
+       -> steps: edit exported fields | copy the struct | call the serialiser and drop the result |
+                 serialise and decode again
        -> Size() / Payload() / WriteSEIMessages / decode
    and the harness compares the observables of the FINAL Go value with `typed_observe` of the final
    field record: a Go message that carried hidden state through such a history (a cached payload,
@@ -66,6 +67,7 @@ Inductive origin :=
 Inductive step :=
 | SEdit (f : typed -> typed)   (* any change of exported fields (one field, several, a slice element ...) *)
 | SCopy                        (* c := *m; go on with &c: the same exported field values *)
+| SObserve                     (* Size() / Payload() / String() / WriteSEIMessages called, result dropped *)
 | SRedecode.                   (* go on with decode (m.Payload()) *)
 
 Definition run_origin (o : origin) : res typed :=
@@ -79,6 +81,7 @@ Fixpoint run_steps (ss : list step) (t : typed) : res typed :=
   | [] => Ok t
   | SEdit f :: r => run_steps r (f t)
   | SCopy :: r => run_steps r t
+  | SObserve :: r => run_steps r t
   | SRedecode :: r => do t' <- typed_decode_like t (typed_payload t); run_steps r t'
   end.
 
